@@ -616,7 +616,11 @@ def execute(cfg, history, oracles, hooks=None, keep_world=False, alphabet=None):
         if alphabet is not None:
             res.enabled = alphabet(ref)  # BEFORE the destructive probe
         if hooks is not None and hasattr(hooks, "probe"):
-            res.violations.extend(hooks.probe(run) or [])
+            try:
+                res.violations.extend(hooks.probe(run) or [])
+            except Exception as e:  # noqa: BLE001 - the probe only calls the library's public API
+                res.violations.append(("probe-exception", "after %r a follow-up read through the public API raised %s: %s"
+                                       % (full[-1] if full else None, type(e).__name__, str(e)[:200])))
     finally:
         if keep_world:
             res.world = world
